@@ -296,36 +296,6 @@ theorem MapInv.enqueue {c : Conn} (r : Nat) (h : MapInv c) : MapInv (step c (.en
       · intro hb'; simp_all
     · exact h
 
-theorem MapInv.grant {c : Conn} (r : Nat) (h : MapInv c) : MapInv (step c (.grant r)) := by
-  simp only [step]
-  split
-  · exact h
-  · split
-    · rename_i hb hmem
-      have hmem : r ∈ c.sending := by simpa using hmem
-      refine { h with reqOnce := ?_, reqLt := ?_, brk := ?_, permLt := ?_ }
-      · intro x
-        have := h.reqOnce x
-        simp only [List.count_append, List.count_cons, List.count_nil, count_filter_ne]
-        have hpos : 0 < c.sending.count r := List.count_pos_iff.mpr hmem
-        by_cases hx : x = r
-        · subst hx; simp only [srvReqs] at *; simp; omega
-        · have : ¬ (r == x) = true := by simpa using fun e => hx e.symm
-          simp only [srvReqs] at *
-          simp [hx, this]; omega
-      · intro x hx
-        rcases hx with hx | hx | hx
-        · exact h.reqLt x (Or.inl (List.mem_filter.mp hx).1)
-        · exact h.reqLt x (Or.inr (Or.inl hx))
-        · exact h.reqLt x (Or.inr (Or.inr hx))
-      · intro x hx
-        simp only [List.mem_append, List.mem_singleton] at hx
-        rcases hx with hx | hx
-        · exact h.permLt x hx
-        · subst hx; exact h.reqLt x (Or.inl hmem)
-      · intro hb'; simp_all
-    · exact h
-
 theorem MapInv.submitRace {c : Conn} (h : MapInv c) : MapInv (step c .submitRace) := by
   simp only [step]
   split
@@ -872,7 +842,6 @@ theorem MapInv.step {c : Conn} (h : MapInv c) (e : Ev) : MapInv (step c e) := by
   | submit => exact h.submit
   | submitFull => exact h.submitFull
   | enqueue r => exact h.enqueue r
-  | grant r => exact h.grant r
   | submitRace => exact h.submitRace
   | push r => exact h.push r
   | writerTake => exact h.writerTake
@@ -989,22 +958,6 @@ theorem CallerInv.enqueue {c : Conn} (r : Nat) (h : CallerInv c) : CallerInv (st
       · exact Or.inr (Or.inl (List.mem_append_left _ m))
       · exact Or.inr (Or.inr (Or.inl m))
       · exact Or.inr (Or.inr (Or.inr mp))
-    · exact h
-
-theorem CallerInv.grant {c : Conn} (r : Nat) (h : CallerInv c) : CallerInv (step c (.grant r)) := by
-  simp only [step]
-  split
-  · exact h
-  · split
-    · refine { h with tracked := ?_ }
-      intro r' hw
-      rcases h.tracked r' hw with m | m | m | mp
-      · by_cases e : r' = r
-        · subst e; exact Or.inr (Or.inr (Or.inr (by simp)))
-        · exact Or.inl (List.mem_filter.mpr ⟨m, by simpa using e⟩)
-      · exact Or.inr (Or.inl m)
-      · exact Or.inr (Or.inr (Or.inl m))
-      · exact Or.inr (Or.inr (Or.inr (List.mem_append_left _ mp)))
     · exact h
 
 /-- Completing caller `r`'s oneshot with `o` (a frame only if it is `r`'s own). -/
@@ -1337,7 +1290,6 @@ theorem Inv.step {c : Conn} (h : Inv c) (e : Ev) : Inv (Conn.step c e) := by
   | submit => exact h.callers.submit
   | submitFull => exact h.callers.submitFull
   | enqueue r => exact h.callers.enqueue r
-  | grant r => exact h.callers.grant r
   | submitRace => exact h.callers.submitRace
   | push r => exact h.callers.push r
   | writerTake => exact h.callers.writerTake h.map
